@@ -12,11 +12,12 @@ RULE = ("Mode M: EVERY duplicate-free ordered variable list of length 1..3 over 
         "lists of lists) of every context for boolean/integer from_list; every 0/1 mask for to_list (1-D and 2-D); boolean/integer variable "
         "index partition for every list; A / b / to_linalg on every 2x2 system of the C11 space. oracle: the statement, literally. "
         "non-trivial = distinct case with at least one given and one defaulted position")
-ASSUMPTIONS = ["ids are duplicate-free (stated); dictionary values are distinct small integers so that permutations are visible"]
+ASSUMPTIONS = ["ids are duplicate-free (stated); dictionary values are distinct small integers (one of them 0) so that permutations and falsy values are visible"]
 BOUNDS = {"quick": "as in rule", "thorough": "as quick + length 4 with all four bounds, contexts of length 5"}
 IDS = ["a", "b", "ü", 7, 0]
 BMENU = [(0, 1), (-2, 5), (1, 1), (3, 3)]
-VAL = {"a": 11, "b": -12, "ü": 13, 7: 14, 0: -15, "zz": 99}
+# distinct values so that permutations are visible; one of them is 0 (a given 0 is a value, not "missing")
+VAL = {"a": 11, "b": 0, "ü": 13, 7: -14, 0: -15, "zz": 99}
 
 
 def var_lists(tier):
